@@ -9,31 +9,42 @@ open CuqiVerif CuqiVerif.Proto CuqiVerif.C08
   tree <v> <j> <eps> <P> <b> <wall> <x> <r> <logu> <ham0> <uniforms>
     -> n | s | cand.x | leaves.x (matrix) | nodes | consumed
 -/
-def fmtOptRat : Option Rat → String
-  | some q => fmtRat q
-  | none => "nan"
+def fmtXR : XR → String
+  | .fin q => fmtRat q
+  | .nan => "nan"
+  | .pinf => "inf"
+  | .ninf => "-inf"
 
-def parseWall (s : String) : Option (Option Rat) :=
-  if s = "none" then some none else (parseRat s).map some
+/-- wall spec: `none` or `<threshold>:<nan|inf|-inf>` -/
+def parseWall (s : String) : Option (Option Rat × XR) :=
+  if s = "none" then some (none, .nan) else
+  match s.splitOn ":" with
+  | [w, k] =>
+    match parseRat w, k with
+    | some w, "nan" => some (some w, .nan)
+    | some w, "inf" => some (some w, .pinf)
+    | some w, "-inf" => some (some w, .ninf)
+    | _, _ => none
+  | _ => none
 
 def step : List String → String
   | ["nuts", g, md, eps, P, b, wall, x, r, e, us] =>
     match parseNat g, parseNat md, parseRat eps, parseMat P, parseVec b, parseWall wall,
           parseVec x, parseVec r, parseRat e, parseVec us with
     | some g, some md, some eps, some P, some b, some wall, some x, some r, some e, some us =>
-      let t : Target := { P := P, b := b, wall := wall }
+      let t : Target := { P := P, b := b, wall := wall.1, wallVal := wall.2 }
       match t.logd x with
-      | none => "err-nan-start"
-      | some l0 =>
-        let z0 : PS := { x := x, r := r, logd := some l0, grad := t.grad x }
+      | .fin l0 =>
+        let z0 : PS := { x := x, r := r, logd := .fin l0, grad := t.grad x }
         let ham0 := l0 - (1/2) * dotQ r r
         let logu := ham0 - e
         let c := psCtx t eps logu ham0
-        let guard : PS → Bool := if g = 1 then (fun z => z.logd.isSome) else (fun _ => true)
+        let guard : PS → Bool := if g = 1 then (fun z => z.logd.isFinite) else (fun _ => true)  -- g = 0: an unguarded loop (no interface uses it since the legacy repair)
         let st := nutsStep c guard md z0 us
-        let diffs := st.last.map (fun z => match c.ham z with | some h => fmtRat (h - ham0) | none => "nan")
+        let diffs := st.last.map (fun z => fmtXR ((c.ham z).subRat ham0))
         let mg := margin c (st.last)
-        s!"{fmtBool st.acc} | {fmtVec st.cur.x} | {st.nodes} | {us.length - st.us.length} | {st.j} | {st.n} | {",".intercalate diffs} | {fmtRat mg} | {fmtOptRat st.cur.logd} | {fmtVec st.cur.grad}"
+        s!"{fmtBool st.acc} | {fmtVec st.cur.x} | {st.nodes} | {us.length - st.us.length} | {st.j} | {st.n} | {",".intercalate diffs} | {fmtRat mg} | {fmtXR st.cur.logd} | {fmtVec st.cur.grad}"
+      | _ => "err-nonfinite-start"
     | _, _, _, _, _, _, _, _, _, _ => "bad-op"
   | ["leapfrog", eps, P, b, x, r] =>
     match parseRat eps, parseMat P, parseVec b, parseVec x, parseVec r with
@@ -46,7 +57,7 @@ def step : List String → String
     match parseInt v, parseNat j, parseRat eps, parseMat P, parseVec b, parseWall wall,
           parseVec x, parseVec r, parseRat logu, parseRat ham0, parseVec us with
     | some v, some j, some eps, some P, some b, some wall, some x, some r, some logu, some ham0, some us =>
-      let t : Target := { P := P, b := b, wall := wall }
+      let t : Target := { P := P, b := b, wall := wall.1, wallVal := wall.2 }
       let z0 : PS := { x := x, r := r, logd := t.logd x, grad := t.grad x }
       let c := psCtx t eps logu ham0
       let (tr, rest) := buildTree c v j z0 us
